@@ -26,3 +26,6 @@ Fixpoint name_eqb (a b : name) : bool :=
   | _, _ => false
   end.
 
+
+(** index-level tokens (shared vocabulary of the reference grammar and of the model of the parser) *)
+Inductive token := Lambda | Lparen | Rparen | Number (n : nat).
